@@ -659,6 +659,29 @@ class Desugarer:
                     B.expanded.append('?')
                     return True
                 continue
+            if _is(callee, ('Entry::and_modify',)) and len(t['args']) == 2 and t['target'] is not None:
+                clos = self.closure_of(B, t['args'][1])
+                if clos and self.should_expand(clos[0], 'Entry::and_modify', B.j):
+                    # entry.and_modify(f): f(&mut value) when the entry is occupied; the entry is handed on
+                    span = t['span']
+                    ent = B.local(B.locals[t['dest']['l']]['ty'] if not t['dest']['p'] else '_')
+                    x = B.local(self.param_ty(clos, 0) or '&mut _')
+                    r = B.local('&mut _')
+                    tmp = B.local('()')
+                    done = B.block([assign_place(t['dest'], use(mv(ent)), span)], goto(t['target'], span))
+                    call = self.splice(B, clos, [mv(x)], P(tmp), done, span)
+                    occ = B.block([assign(r, ref(ent, True), span)],
+                                  {'k': 'call', 'decl': 'desugar::occupied_value', 'full': 'desugar::occupied_value',
+                                   'callee': 'desugar::occupied_value', 'local': False, 'targs': [], 'args': [mv(r)],
+                                   'dest': P(x), 'target': call, 'unwind': 'continue', 'span': span, 'exp': True,
+                                   'synthetic': True})
+                    st, sw = self.discr_switch(B, ent, 'std::collections::hash_map::Entry',
+                                               [[0, 'Occupied'], [1, 'Vacant']], [[0, occ], [1, done]], span)
+                    B.blocks[bi] = dict(B.blocks[bi], stmts=B.blocks[bi]['stmts'] + [assign(ent, use(t['args'][0]), span)] + st,
+                                        term=sw)
+                    B._defs = None
+                    return True
+                continue
             kind = _is(callee, SCOPED)
             if kind and len(t['args']) == 2 and t['target'] is not None:
                 clos = self.closure_of(B, t['args'][1])
